@@ -265,6 +265,17 @@ def flushWith (restore : Bool) (F : Oracle) (sz : Nat) (w : World) (p : Pers) :
 def flush (F : Oracle) (sz : Nat) (w : World) (p : Pers) : World × Pers × FlushOut :=
   flushWith false F sz w p
 
+/-! ## the state a node ends up with -/
+
+/-- `apply_remote_delta`: merge into the existing value of the key, or insert -/
+def applyDelta (m : NMap RV) (d : Delta) : NMap RV :=
+  NMap.insertWith (fun new old => RV.merge old new) d.1 d.2 m
+
+def applyAll (m : NMap RV) (l : List Delta) : NMap RV := l.foldl applyDelta m
+
+/-- per-key fold of `RV.merge` over a list of updates -/
+def foldState (l : List Delta) : NMap RV := applyAll [] l
+
 /-! ## Compactor -/
 
 structure CompactCfg where
@@ -295,11 +306,11 @@ def selectSegments (cfg : CompactCfg) (m : Manifest) : List SegInfo :=
 
 /-- one delta into `key_to_delta` -/
 def keepStep (mergeFlag : Bool) (acc : NMap RV) (d : Delta) : NMap RV :=
-  match NMap.get acc d.1 with
-  | none => NMap.insert d.1 d.2 acc
-  | some e =>
-    if mergeFlag then NMap.insert d.1 (RV.merge e d.2) acc
-    else if d.2.ts.time > e.ts.time then NMap.insert d.1 d.2 acc else acc
+  if mergeFlag then applyDelta acc d     -- repaired: `existing.value = existing.value.merge(&delta.value)`
+  else
+    match NMap.get acc d.1 with
+    | none => NMap.insert d.1 d.2 acc
+    | some e => if d.2.ts.time > e.ts.time then NMap.insert d.1 d.2 acc else acc
 
 inductive CompactOut where
   | nothing                                       -- `Err(NothingToCompact)`
@@ -317,6 +328,12 @@ structure LoadAcc where
   missing : Nat
   failed : Bool        -- (repaired code only) a non-NotFound error aborts the compaction
   deriving Repr
+
+def LoadAcc.init : LoadAcc := { ktd := [], before := 0, actually := [], missing := 0, failed := false }
+
+/-- `key_to_delta.retain(..)`: drop tombstones older than the cutoff -/
+def keptOf (cfg : CompactCfg) (ktd : NMap RV) : NMap RV :=
+  ktd.filter (fun p => !(p.2.isTombstone && p.2.ts.time < cfg.cutoff))
 
 /-- the loop over the selected segments (`store.get` each) -/
 def loadLoop (fl : CompactFlags) (F : Oracle) : World → LoadAcc → List SegInfo → World × LoadAcc
@@ -350,7 +367,7 @@ def compactWith (fl : CompactFlags) (F : Oracle) (cfg : CompactCfg) (sz : Nat) (
   | (w1, some m) =>
     let sel := selectSegments cfg m
     if sel.length < cfg.minSegs then (w1, .nothing) else
-    let (w2, acc) := loadLoop fl F w1 { ktd := [], before := 0, actually := [], missing := 0, failed := false } sel
+    let (w2, acc) := loadLoop fl F w1 LoadAcc.init sel
     if acc.failed then (w2, .error) else
     let ids := acc.actually.map (·.id)
     if acc.missing > 0 && acc.ktd.isEmpty && acc.before == 0 then
@@ -359,7 +376,7 @@ def compactWith (fl : CompactFlags) (F : Oracle) (cfg : CompactCfg) (sz : Nat) (
       | (w3, false) => (w3, .error)
       | (w3, true) => (w3, .cleaned ids)
     else if acc.actually.length < cfg.minSegs then (w2, .nothing) else
-    let kept := acc.ktd.filter (fun p => !(p.2.isTombstone && p.2.ts.time < cfg.cutoff))
+    let kept := keptOf cfg acc.ktd
     let tombs := acc.ktd.length - kept.length
     if kept.isEmpty then
       let m' : Manifest := { m with segments := removeIds m ids, version := m.version + 1 }
@@ -455,20 +472,9 @@ def recoverWithWalWith (hwmFilter : Bool) (st : Store) (rid : Nat) (wal : List (
 def recoverWithWal (st : Store) (rid : Nat) (wal : List (Nat × Delta)) : Except RecErr Recovered :=
   recoverWithWalWith true st rid wal
 
-/-! ## the state a node ends up with -/
-
 /-- everything recovery hands to the node, in application order: checkpoint entries first
     (plain inserts, one per key), then the deltas -/
 def Recovered.updates (r : Recovered) : List Delta := (r.chk.getD []) ++ r.deltas
-
-/-- `apply_remote_delta`: merge into the existing value of the key, or insert -/
-def applyDelta (m : NMap RV) (d : Delta) : NMap RV :=
-  NMap.insertWith (fun new old => RV.merge old new) d.1 d.2 m
-
-def applyAll (m : NMap RV) (l : List Delta) : NMap RV := l.foldl applyDelta m
-
-/-- per-key fold of `RV.merge` over a list of updates -/
-def foldState (l : List Delta) : NMap RV := applyAll [] l
 
 /-! ## workloads (C12 / C13) -/
 
@@ -477,6 +483,22 @@ inductive Op where
   | flush (sz : Nat)
   | compact (cfg : CompactCfg) (sz : Nat)
   deriving DecidableEq, Repr
+
+def Op.isCompact : Op → Bool
+  | .compact _ _ => true
+  | _ => false
+
+/-- this operation performs no tombstone GC (`cutoff = 0`: no Lamport time is below it) -/
+def Op.gcFree : Op → Bool
+  | .compact cfg _ => cfg.cutoff == 0
+  | _ => true
+
+def Op.pushed? : Op → Option Delta
+  | .push d => some d
+  | _ => none
+
+/-- every update the workload pushes -/
+def pushes (ops : List Op) : List Delta := ops.filterMap Op.pushed?
 
 /-- flags of a whole run -/
 structure Flags where
